@@ -334,6 +334,32 @@ class Affine:
                 if ("opt", p["l"]) in st and not p["p"]:
                     st[("opt", l)] = st[("opt", p["l"])]
                 src = p["l"]
+                if len(p["p"]) == 2 and isinstance(p["p"][0], dict) and p["p"][0].get("variant") == "Some" and isinstance(p["p"][1], dict) and p["p"][1].get("i") == 0:
+                    # sub = (s.get(a..b) as Some).0
+                    if ("optslicelen", src) in st:
+                        st[("slicelen", l)] = st[("optslicelen", src)]
+                    if ("optsuboff", src) in st:
+                        st[("suboff", l)] = st[("optsuboff", src)]
+                if len(p["p"]) == 2 and isinstance(p["p"][0], dict) and p["p"][0].get("variant") == "Ready" and isinstance(p["p"][1], dict) and p["p"][1].get("i") == 0:
+                    for k_ in [k_ for k_ in st if k_[0].startswith("rdy_") and k_[1] == src]:
+                        st[(k_[0][4:], l) + tuple(k_[2:])] = st[k_]
+                if not p["p"]:
+                    for k_ in [k_ for k_ in st if k_[0].startswith("rdy_") and k_[1] == src]:
+                        st[(k_[0], l) + tuple(k_[2:])] = st[k_]
+                if not p["p"]:
+                    for kk in ("optslicelen", "optsuboff", "optfit", "suboff"):
+                        if (kk, src) in st:
+                            st[(kk, l)] = st[(kk, src)]
+                    for k_ in [k_ for k_ in st if k_[0] in ("flen", "resflen") and k_[1] == src]:
+                        st[(k_[0], l, k_[2])] = st[k_]
+                elif len(p["p"]) == 1 and isinstance(p["p"][0], dict) and "f" in p["p"][0] and ("flen", src, str(p["p"][0]["f"])) in st:
+                    st[("len", ("L", l))] = st[("flen", src, str(p["p"][0]["f"]))]
+                elif len(p["p"]) == 2 and isinstance(p["p"][0], dict) and p["p"][0].get("variant") in ("Continue", "Ok", "Some") and isinstance(p["p"][1], dict) and p["p"][1].get("i") == 0:
+                    for k_ in [k_ for k_ in st if k_[0] == "resflen" and k_[1] == src]:
+                        st[("flen", l, k_[2])] = st[k_]
+                elif len(p["p"]) == 3 and isinstance(p["p"][0], dict) and p["p"][0].get("variant") in ("Continue", "Ok", "Some") and isinstance(p["p"][2], dict) and "f" in p["p"][2] \
+                        and ("resflen", src, str(p["p"][2]["f"])) in st:
+                    st[("len", ("L", l))] = st[("resflen", src, str(p["p"][2]["f"]))]
                 if ("tuplen", src) in st:
                     # (head, tail) = slice.split_at(n): the halves carry their lengths
                     if len(p["p"]) == 1 and isinstance(p["p"][0], dict) and p["p"][0].get("i") in (0, 1):
@@ -388,6 +414,11 @@ class Affine:
                 fv = self.op_form(st, op_)
                 if fv is not None:
                     st[("F", l, str(fn_))] = fv
+                # ... and so are the lengths of the vectors moved into it (`WirePayload { query, body }`)
+                q_ = op_place(op_)
+                st.pop(("flen", l, str(fn_)), None)
+                if q_ is not None and not q_["p"] and ("len", ("L", q_["l"])) in st:
+                    st[("flen", l, str(fn_))] = st[("len", ("L", q_["l"]))]
         elif rv.get("agg") == "tuple" and rv.get("ops"):
             # a tuple (the argument pack of a closure call, a pair built for a match): its integer slots are known
             for k_, op_ in enumerate(rv["ops"]):
@@ -402,8 +433,21 @@ class Affine:
             # Ok(vec): the payload's length travels with the Result (same key a summarised `-> Result<Vec<u8>>` helper sets)
             p = op_place(rv["ops"][0])
             st.pop(("reslen", l), None)
+            for k_ in [k_ for k_ in st if k_[0] == "resflen" and k_[1] == l]:
+                st.pop(k_, None)
             if p is not None and not p["p"] and ("len", ("L", p["l"])) in st:
                 st[("reslen", l)] = st[("len", ("L", p["l"]))]
+            if p is not None and not p["p"]:
+                for k_ in [k_ for k_ in st if k_[0] == "flen" and k_[1] == p["l"]]:
+                    st[("resflen", l, k_[2])] = st[k_]
+        elif rv.get("agg") == "adt" and rv.get("variant") == "Ready" and str(rv.get("adt", "")).endswith("Poll") and len(rv.get("ops") or []) == 1:
+            # Poll::Ready(res) of a spliced async helper: what is known about `res` travels inside
+            p = op_place(rv["ops"][0])
+            for k_ in [k_ for k_ in st if k_[0].startswith("rdy_") and k_[1] == l]:
+                st.pop(k_, None)
+            if p is not None and not p["p"]:
+                for k_ in [k_ for k_ in st if k_[0] in ("reslen", "resflen", "opt") and k_[1] == p["l"]]:
+                    st[("rdy_" + k_[0], l) + tuple(k_[2:])] = st[k_]
         elif "agg" in rv and rv["agg"] == "adt" and rv["adt"] == "std::option::Option" and rv["variant"] == "None":
             st.pop(("opt", l), None)
             st[("optnone", l)] = True
@@ -475,6 +519,8 @@ class Affine:
                     for kk in ("opt", "reslen"):
                         if (kk, p0["l"]) in st:
                             so[(kk, dl)] = st[(kk, p0["l"])]
+                    for k_ in [k_ for k_ in st if k_[0] == "resflen" and k_[1] == p0["l"]]:
+                        so[("resflen", dl, k_[2])] = st[k_]
             elif c["path"] in self.facts.bodies and self._is_int(self.b.local_ty(dl)) and args:
                 f = self._callee_int_summary(st, c["path"], args)
             elif name in ("new",) and "Vec" in c["path"]:
@@ -493,6 +539,26 @@ class Affine:
                 sl = self._range_len(st, args[0], args[1])
                 if sl is not None:
                     so[("slicelen", dl)] = sl
+                so_ = self._sub_origin_of_call(st, args)
+                so.pop(("suboff", dl), None)
+                if so_ is not None:
+                    so[("suboff", dl)] = so_
+            elif name in ("get", "get_mut") and len(args) == 2 and "[T]" in c["path"] and self.range_bounds(st, args[1]) is not None:
+                # `s.get(a..b)`: Some(sub) iff the range fits; sub = s[a..b]
+                for kk in ("optslicelen", "optsuboff", "optfit"):
+                    so.pop((kk, dl), None)
+                sl = self._range_len(st, args[0], args[1])
+                rb_ = self.range_bounds(st, args[1])
+                bl_ = self._slice_len(st, args[0])
+                if sl is not None:
+                    so[("optslicelen", dl)] = sl
+                so_ = self._sub_origin_of_call(st, args)
+                if so_ is not None:
+                    so[("optsuboff", dl)] = so_
+                if rb_ is not None and bl_ is not None:
+                    end_ = rb_[2] if rb_[4] else bl_
+                    if end_ is not None and rb_[1] is not None:
+                        so[("optfit", dl)] = (rb_[1], end_, bl_)
             elif name in ("split_at", "split_at_mut", "split_at_checked") and len(args) == 2 and "slice" in c["path"] or name == "split_at" and "[T]" in c["path"]:
                 so.pop(("tuplen", dl), None)
                 whole = self._slice_len(st, args[0])
@@ -751,6 +817,61 @@ class Affine:
         e = self.op_form(st, d["end"]) if "end" in d else None
         return (rv["adt"].rsplit("::", 1)[-1], s, e, "start" in d, "end" in d)
 
+    def sub_origin(self, st, op):
+        """(root argument local, offset form) when the slice `op` denotes is known to be arg[offset ..]; None otherwise"""
+        p = op_place(op)
+        if p is None:
+            return None
+        l = p["l"]
+        for _ in range(10):
+            if ("suboff", l) in st:
+                return st[("suboff", l)]
+            if 1 <= l <= self.b.argc and len(self.b.defs_of(l)) == 1:
+                return (l, Form.const(0))
+            defs = self.b.defs_of(l)
+            if len(defs) != 1:
+                return None
+            d = defs[0]
+            if d[0] == "assign":
+                rv = d[3]
+                q = rv.get("ref") or (op_place(rv["use"]) if "use" in rv else None) or (op_place(rv["cast"]) if "cast" in rv else None)
+                if q is None or [e for e in q["p"] if e != "deref"]:
+                    return None
+                l = q["l"]
+                continue
+            if d[0] == "call" and d[2]["callee"]["name"] in ("deref", "deref_mut", "as_slice", "as_mut_slice", "as_ref", "borrow") and d[2]["args"]:
+                q = op_place(d[2]["args"][0])
+                if q is None:
+                    return None
+                l = q["l"]
+                continue
+            return None
+        return None
+
+    def _sub_origin_of_call(self, st, args):
+        base = self.sub_origin(st, args[0])
+        rb = self.range_bounds(st, args[1])
+        if base is None or rb is None or rb[1] is None:
+            return None
+        return (base[0], base[1].add(rb[1]))
+
+    def abs_range(self, st, base_op, rng_op):
+        """(root argument local, absolute start, absolute end) of `base[rng]` when base is a known sub-slice of an argument"""
+        base = self.sub_origin(st, base_op)
+        rb = self.range_bounds(st, rng_op)
+        if base is None or rb is None or rb[1] is None:
+            return None
+        if rb[4]:
+            if rb[2] is None:
+                return None
+            end = base[1].add(rb[2])
+        else:
+            bl = self._slice_len(st, base_op)
+            if bl is None:
+                return None
+            end = base[1].add(bl)
+        return (base[0], base[1].add(rb[1]), end)
+
     def _range_len(self, st, base_op, rng_op):
         rb = self.range_bounds(st, rng_op)
         if rb is None:
@@ -815,6 +936,8 @@ class Affine:
                     info = {"kind": "discr", "variants": vm, "local": src}
                     if ("opt", src) in stc:
                         info["optsum"] = stc[("opt", src)]
+                    if ("optfit", src) in stc:
+                        info["optfit"] = stc[("optfit", src)]
                     # resolve through Try::branch / moves to the producing call
                     cur = src
                     hops = 0
@@ -908,6 +1031,10 @@ class Affine:
                 nm = names[0]
                 if nm == "Some" and "optsum" in info:
                     out.append(("nooverflow", info["optsum"]))
+                if nm == "Some" and "optfit" in info:
+                    s0, e0, bl0 = info["optfit"]
+                    out.append(("le", e0, bl0))
+                    out.append(("le", s0, e0))
                 if nm in ("Continue", "Ok") and "call" in info:
                     cbb, ct, aforms = info["call"]
                     out.append(("call_ok", ct["callee"]["path"], ct, aforms, cbb))
